@@ -332,6 +332,8 @@ SEEDS10 = {
     "C14-16": ("C14", ["C07", "C14"], "(as C07-1/-11/-13, written independently) getLatestCheckpoint as Query+rows.Next without rows.Err", "SQLite storage and a driver error stepping the checkpoint row in the poll in which the log serves a fork"),
     "C12-15": ("C12", ["C12", "C17"], "an empty Origin defaults to the key name - in AsLogMap before the ID is derived, in config.NewLog after", "a configured entry with an empty or omitted Origin"),
     "C12-16": ("C12", ["C05", "C12"], "inmemory WriteOps takes its readWriter from a sync.Pool; the object is released at Set and again at Close", "three overlapping updates to three logs: A.WriteOps, A.Set, C.WriteOps, A.Close, D.WriteOps, C.Set - C's checkpoint lands under D's ID"),
+    "C04-13": ("C04", ["C16", "C04", "C05"], "HTTP server: getCheckpoint goes through a singleflight.Group keyed by log ID", "three actors: GET 1 slow at the storage read, an update accepted meanwhile, GET 2 started after the update returned joins GET 1's flight and gets the pre-update bytes"),
+    "C04-14": ("C04", ["C05", "C04", "C06"], "sql store: read cache filled by readers on a miss and dropped by WriteOps right after Begin (never touched by Set/commit)", "SQL storage with more than one pooled connection and a read inside an accepted update's WriteOps..Set window: the old checkpoint is re-cached and served afterwards"),
 }
 SEEDS2.update(SEEDS10)
 ROUND9 = {'C01', 'C02', 'C03', 'C04', 'C05', 'C07', 'C08', 'C09', 'C10', 'C13', 'C15', 'C18'}
